@@ -25,6 +25,7 @@ import (
 	"fmt"
 	"io"
 	"mime/multipart"
+	"net"
 	"net/http"
 	"net/http/httptest"
 	"os"
@@ -35,6 +36,7 @@ import (
 	"sync"
 
 	"github.com/Basekick-Labs/msgpack/v6"
+	"github.com/apache/arrow-go/v18/parquet/file"
 	"github.com/basekick-labs/arc/internal/api"
 	"github.com/basekick-labs/arc/internal/auth"
 	"github.com/basekick-labs/arc/internal/cluster"
@@ -44,6 +46,7 @@ import (
 	"github.com/basekick-labs/arc/internal/wal"
 	"github.com/gofiber/fiber/v2"
 	"github.com/rs/zerolog"
+	"github.com/valyala/fasthttp/fasthttputil"
 )
 
 type decoy struct {
@@ -81,6 +84,8 @@ type result struct {
 	WalEntries  int            `json:"wal_entries"`
 	ReplayJobs  int            `json:"replay_jobs"`
 	ReplayLeg   bool           `json:"replay_leg"`
+	Sequences   int            `json:"sequences"`
+	SeqRows     map[string]int `json:"sequence_rows_per_leg"`
 	PerForm     map[string]int `json:"per_form"`
 	PerLegFiles map[string]int `json:"files_per_leg"`
 	Violations  []finding      `json:"violations"`
@@ -93,13 +98,52 @@ type result struct {
 type recBackend struct {
 	mu     sync.Mutex
 	writes []string
+	rows   map[string]int // "db/measurement" -> rows of the Parquet files written there
+}
+
+// parquetRows reads the row count from the Parquet footer.
+func parquetRows(data []byte) int {
+	rd, err := file.NewParquetReader(bytes.NewReader(data))
+	if err != nil {
+		return -1
+	}
+	defer rd.Close()
+	return int(rd.NumRows())
+}
+
+func pairKey(path string) string {
+	seg := strings.Split(path, "/")
+	if len(seg) < 3 {
+		return path
+	}
+	return seg[0] + "/" + seg[1]
 }
 
 func (b *recBackend) Write(ctx context.Context, path string, data []byte) error {
+	n := 0
+	if len(data) > 0 {
+		n = parquetRows(data)
+	}
 	b.mu.Lock()
 	b.writes = append(b.writes, path)
+	if b.rows == nil {
+		b.rows = map[string]int{}
+	}
+	b.rows[pairKey(path)] += n
 	b.mu.Unlock()
 	return nil
+}
+
+func (b *recBackend) takeRows() map[string]int {
+	b.mu.Lock()
+	r := b.rows
+	b.rows = nil
+	b.writes = nil
+	b.mu.Unlock()
+	if r == nil {
+		r = map[string]int{}
+	}
+	return r
 }
 func (b *recBackend) WriteReader(ctx context.Context, path string, r io.Reader, size int64) error {
 	_, _ = io.Copy(io.Discard, r)
@@ -109,6 +153,7 @@ func (b *recBackend) take() []string {
 	b.mu.Lock()
 	w := b.writes
 	b.writes = nil
+	b.rows = nil
 	b.mu.Unlock()
 	return w
 }
@@ -144,7 +189,14 @@ type recChecker struct {
 
 func (r *recChecker) IsRBACEnabled() bool { return true }
 func (r *recChecker) CheckPermission(req *auth.PermissionCheckRequest) *auth.PermissionCheckResult {
-	ok := req.Permission == "write" && req.Database == "prod" && (req.Measurement == "cpu" || req.Measurement == "mem")
+	home := "prod" // tenant 1 (token 7) may write prod, tenant 2 (token 8) may write other
+	if req.TokenInfo != nil && req.TokenInfo.ID == 8 {
+		home = "other"
+	}
+	if req.TokenInfo != nil && req.TokenInfo.ID == 9 {
+		home = "default" // tenant 3
+	}
+	ok := req.Permission == "write" && req.Database == home && (req.Measurement == "cpu" || req.Measurement == "mem")
 	r.mu.Lock()
 	r.checks = append(r.checks, check{strings.Clone(req.Database), strings.Clone(req.Measurement), req.Permission, ok})
 	r.mu.Unlock()
@@ -176,6 +228,8 @@ func measOf(s string) []string {
 	switch s {
 	case "ok":
 		return []string{"cpu"}
+	case "okmem":
+		return []string{"mem"}
 	case "denied":
 		return []string{"secret"}
 	case "mixed":
@@ -562,11 +616,12 @@ func checkedDb(checks []check, db string) bool {
 func main() {
 	scenPath := flag.String("scenarios", "", "scenarios json (TLC TRACE payloads)")
 	outPath := flag.String("out", "", "result json")
+	seqPath := flag.String("seq", "", "two-request sequences json (WalSeq.tla TRACE payloads)")
 	arcBin := flag.String("arc", "", "overlaid arc binary with the writeauth child entry (empty: skip the replay leg)")
 	tmp := flag.String("tmp", "", "scratch directory")
 	flag.Parse()
-	res := &result{PerForm: map[string]int{}, PerLegFiles: map[string]int{}}
-	if err := run(*scenPath, *arcBin, *tmp, res); err != nil {
+	res := &result{PerForm: map[string]int{}, PerLegFiles: map[string]int{}, SeqRows: map[string]int{}}
+	if err := run(*scenPath, *seqPath, *arcBin, *tmp, res); err != nil {
 		res.Infra = err.Error()
 	}
 	f, _ := os.Create(*outPath)
@@ -581,7 +636,20 @@ type pending struct {
 	witness map[string]interface{}
 }
 
-func run(scenPath, arcBin, tmp string, res *result) error {
+type seqReq struct {
+	Form string `json:"form"`
+	Db   string `json:"db"`
+	M    string `json:"m"`
+}
+
+type seqScenario struct {
+	Reqs   []seqReq        `json:"reqs"`
+	Expect [][]interface{} `json:"expect"` // [db, m, rows]
+}
+
+const seqJobBase = 1000000
+
+func run(scenPath, seqPath, arcBin, tmp string, res *result) error {
 	raw, err := os.ReadFile(scenPath)
 	if err != nil {
 		return err
@@ -605,8 +673,15 @@ func run(scenPath, arcBin, tmp string, res *result) error {
 	defer walA.Close()
 	var hookMu sync.Mutex
 	var hooked [][]byte
+	// In the sequence leg the hook keeps the entry BY REFERENCE, exactly like the coordinator's hook +
+	// replication.Sender queue do (Replicate enqueues the *ReplicateEntry, the payload is not copied),
+	// and the queue is drained only after both requests were handed over.
+	hookByRef := false
 	walA.SetReplicationHook(func(e *wal.ReplicationEntry) {
-		cp := append([]byte(nil), e.Payload...)
+		cp := e.Payload
+		if !hookByRef {
+			cp = append([]byte(nil), e.Payload...)
+		}
 		hookMu.Lock()
 		hooked = append(hooked, cp)
 		hookMu.Unlock()
@@ -615,7 +690,14 @@ func run(scenPath, arcBin, tmp string, res *result) error {
 	checker := &recChecker{}
 	app := fiber.New(fiber.Config{DisableStartupMessage: true, BodyLimit: 64 << 20})
 	app.Use(func(c *fiber.Ctx) error {
-		c.Locals("token_info", &auth.TokenInfo{ID: 7, Name: "verif-writer", Permissions: []string{"write"}, Enabled: true})
+		ti := &auth.TokenInfo{ID: 7, Name: "verif-writer", Permissions: []string{"write"}, Enabled: true}
+		if c.Get("x-verif-tenant") == "2" {
+			ti = &auth.TokenInfo{ID: 8, Name: "verif-writer-2", Permissions: []string{"write"}, Enabled: true}
+		}
+		if c.Get("x-verif-tenant") == "3" {
+			ti = &auth.TokenInfo{ID: 9, Name: "verif-writer-3", Permissions: []string{"write"}, Enabled: true}
+		}
+		c.Locals("token_info", ti)
 		return c.Next()
 	})
 	mp := api.NewMsgPackHandler(logger, bufA, 64<<20)
@@ -725,6 +807,124 @@ func run(scenPath, arcBin, tmp string, res *result) error {
 		}
 	}
 
+	// ---- two-request sequences through ONE WAL / one replication stream (WalSeq.tla)
+	var seqs []seqScenario
+	if seqPath != "" {
+		rawS, err := os.ReadFile(seqPath)
+		if err != nil {
+			return err
+		}
+		if err := json.Unmarshal(rawS, &seqs); err != nil {
+			return err
+		}
+	}
+	// both requests of a sequence travel over ONE keep-alive connection, so fasthttp serves them with one
+	// RequestCtx and one request-body buffer (the second body overwrites the first)
+	seqLn := fasthttputil.NewInmemoryListener()
+	go func() { _ = app.Listener(seqLn) }()
+	seqClient := &http.Client{Transport: &http.Transport{
+		DialContext:     func(ctx context.Context, network, addr string) (net.Conn, error) { return seqLn.Dial() },
+		MaxConnsPerHost: 1, MaxIdleConnsPerHost: 1}}
+	defer seqLn.Close()
+	hookByRef = len(seqs) > 0
+	seqWit := map[int]map[string]interface{}{}
+	judgeSeq := func(leg string, k int, got map[string]int) {
+		sq := &seqs[k]
+		want := map[string]int{}
+		for _, e := range sq.Expect {
+			want[fmt.Sprint(e[0])+"/"+fmt.Sprint(e[1])] = int(e[2].(float64))
+		}
+		for pk, n := range got {
+			res.SeqRows[leg] += n
+			if n > want[pk] {
+				sig := leg + ":sequence:rows-of-one-request-stored-under-the-database-or-measurement-of-another"
+				if !j.violSeen[sig] {
+					j.violSeen[sig] = true
+					w := map[string]interface{}{"leg": leg, "stored_rows": got, "rows_each_request_was_checked_for": want}
+					for kk, v := range seqWit[k] {
+						w[kk] = v
+					}
+					res.Violations = append(res.Violations, finding{sig, w})
+				}
+			}
+		}
+		same := len(got) == len(want)
+		for pk, n := range want {
+			if got[pk] != n {
+				same = false
+			}
+		}
+		if !same && !j.drift["seq|"+leg] {
+			j.drift["seq|"+leg] = true
+			res.Drift = append(res.Drift, finding{fmt.Sprintf("%s leg, sequence %v: stored rows %v, WalSeq.tla predicts %v", leg, sq.Reqs, got, want), seqWit[k]})
+		}
+	}
+	for k := range seqs {
+		sq := &seqs[k]
+		var payloads [][]byte
+		var statuses []int
+		for _, rq := range sq.Reqs {
+			ms := "ok"
+			if rq.M == "mem" {
+				ms = "okmem"
+			}
+			sc := &scenario{Form: rq.Form, Hdr: rq.Db, Q: "none", Meas: ms, Dup: "none"}
+			req, err := buildRequest(sc)
+			if err != nil {
+				return err
+			}
+			if rq.Db == "other" {
+				req.Header.Set("x-verif-tenant", "2")
+			}
+			if rq.Db == "default" {
+				req.Header.Set("x-verif-tenant", "3")
+			}
+			rb, _ := io.ReadAll(req.Body)
+			creq, err := http.NewRequest(req.Method, "http://wa.verif"+req.URL.RequestURI(), bytes.NewReader(rb))
+			if err != nil {
+				return err
+			}
+			creq.Header = req.Header
+			resp, err := seqClient.Do(creq)
+			if err != nil {
+				return fmt.Errorf("sequence request: %w", err)
+			}
+			_, _ = io.ReadAll(resp.Body)
+			resp.Body.Close()
+			statuses = append(statuses, resp.StatusCode)
+			if resp.StatusCode >= 300 {
+				return fmt.Errorf("sequence request %v answered %d", rq, resp.StatusCode)
+			}
+		}
+		if err := bufA.FlushAll(ctx); err != nil {
+			return err
+		}
+		live := storeA.takeRows()
+		checker.take()
+		hookMu.Lock()
+		payloads = hooked
+		hooked = nil
+		hookMu.Unlock()
+		res.Sequences++
+		seqWit[k] = map[string]interface{}{"requests_in_wal_order": sq.Reqs, "statuses": statuses, "wal_entries": len(payloads)}
+		judgeSeq("live", k, live)
+		for _, p := range payloads {
+			seq++
+			if err := rcv.VerifApplyEntry(ctx, &replication.ReplicateEntry{Sequence: seq, Payload: p}); err != nil {
+				return fmt.Errorf("applyEntry: %w", err)
+			}
+		}
+		if err := bufB.FlushAll(ctx); err != nil {
+			return err
+		}
+		judgeSeq("replica", k, storeB.takeRows())
+		jb := job{ID: seqJobBase + k}
+		for _, p := range payloads {
+			jb.Payloads = append(jb.Payloads, base64.StdEncoding.EncodeToString(p))
+		}
+		jobs = append(jobs, jb)
+	}
+
 	if arcBin == "" {
 		return nil
 	}
@@ -748,9 +948,10 @@ func run(scenPath, arcBin, tmp string, res *result) error {
 	}
 	var outs []struct {
 		ID      int      `json:"id"`
-		Paths   []string `json:"paths"`
-		Entries int      `json:"entries"`
-		Err     string   `json:"err"`
+		Paths   []string       `json:"paths"`
+		Rows    map[string]int `json:"rows"`
+		Entries int            `json:"entries"`
+		Err     string         `json:"err"`
 	}
 	if err := json.Unmarshal(rawOut, &outs); err != nil {
 		return err
@@ -759,6 +960,16 @@ func run(scenPath, arcBin, tmp string, res *result) error {
 		return fmt.Errorf("replay child answered %d of %d jobs", len(outs), len(jobs))
 	}
 	for _, o := range outs {
+		if o.ID >= seqJobBase {
+			if o.Err != "" {
+				return fmt.Errorf("replay child sequence job %d: %s", o.ID, o.Err)
+			}
+			if o.Rows == nil {
+				o.Rows = map[string]int{}
+			}
+			judgeSeq("replay", o.ID-seqJobBase, o.Rows)
+			continue
+		}
 		p := pend[o.ID]
 		if p == nil {
 			return fmt.Errorf("replay child answered unknown job %d", o.ID)
